@@ -73,6 +73,7 @@ func specRecLen(n uint32) uint32 { return (16 + n + 31) / 32 * 32 }
 //@   ensures x >= 0 && unit <= 1<<30 && x <= 1<<31 ==> result%unit == 0
 //@   ensures x >= 0 && unit <= 1<<30 && x <= 1<<31 ==> result >= x
 //@   ensures x >= 0 && unit <= 1<<30 && x <= 1<<31 ==> result-x < unit
+//@   ensures x >= 0 && x+(unit-1) >= x ==> result >= x
 //@   modifies nothing
 
 //@ contract (*mappedFile).place
@@ -448,7 +449,7 @@ func specMapped(m *mappedFile) bool {
 //@   ensures result1 == nil ==> specMapped(result0)
 //@   ensures result1 == nil ==> fresh(result0)
 //@   ensures result1 == nil ==> fresh(result0.mapping) && fresh(result0.mapping.Data)
-//@   ensures result1 == nil && end <= 1<<31 ==> int64(len(result0.mapping.Data)) >= int64(end)
+//@   ensures result1 == nil ==> int64(len(result0.mapping.Data)) >= int64(end)
 //@   ensures result1 != nil ==> result0 == nil
 //@   modifies $minsize, $fsops
 
@@ -467,6 +468,10 @@ func specMapped(m *mappedFile) bool {
 //@   loop 4: invariant specMapped(m) && (m == orig || (fresh(m) && fresh(m.mapping) && fresh(m.mapping.Data))) && next != nil && 0 <= n && n <= maxLinks+1 && len(name) <= maxNameLen && headOff <= 544+4+511*4
 //@   loop 4: decreases maxLinks+1-n
 //@   at call cas32#1: assert int64(end) <= int64(len(m.mapping.Data))
+// Progress of the reserve loop: a successful extend returns a mapping that
+// covers the record about to be reserved (so the same placement is not retried
+// against an unchanged mapping; a corrupt limit near 4GiB used to loop forever).
+//@   at call extend#1: after assert result1 == nil ==> int64(len(result0.mapping.Data)) >= int64(arg1)
 //@   at call cas32#1: assert specPlaceOK(m.hdrLen, limit, len(name)) ==> end > limit && end%32 == 0 && end > specFirst(m.hdrLen, limit)
 //@   at call writeEntryAt#1: assert specPlaceOK(m.hdrLen, limit, len(name)) ==> specFirst(m.hdrLen, limit) <= start && int64(start)+16+int64(len(name)) <= int64(end)
 //@   modifies elems(m.mapping.Data), $minsize, $fsops
